@@ -61,7 +61,7 @@ Ont(p) ==
                 [] p.osel = 1 -> <<[id |-> 7, name |-> NameShapes[p.dshape], terms |-> <<mx>>]>>
                 [] p.osel = 2 -> <<[id |-> 7, name |-> NameShapes[p.dshape], terms |-> <<1>>]>>
                                  \o <<[id |-> 600000, name |-> NameShapes["b300"], terms |-> <<>>]>>
-      orpha == IF p.rsel = 0 THEN <<>> ELSE <<[id |-> 7, name |-> NameShapes["colon"], terms |-> <<118>>]>>
+      orpha == IF p.rsel = 0 THEN <<>> ELSE <<[id |-> 7, name |-> NameShapes[IF p.dshape = "short" THEN "colon" ELSE p.dshape], terms |-> <<118>>]>>
   IN [ version |-> p.version,
        terms   |-> [i \in 1..Len(ids) |->
                       [ id |-> ids[i],
@@ -71,9 +71,14 @@ Ont(p) ==
        parents |-> [i \in 1..Len(ids) |-> [id |-> ids[i], parents |-> Sorted(ParentsOf(p, ids[i]))]],
        gene |-> gene, omim |-> omim, orpha |-> orpha ]
 
+(* the other record order: sections reversed AND the id lists inside the   *)
+(* records reversed (the layout prescribes no order for either)           *)
+RevInner(rs, fld) == [i \in 1..Len(rs) |-> [rs[i] EXCEPT ![fld] = Reverse(@)]]
 Permuted(o, pm) ==
   IF ~pm THEN o
-  ELSE [o EXCEPT !.terms = Reverse(@), !.parents = Reverse(@), !.gene = Reverse(@), !.omim = Reverse(@), !.orpha = Reverse(@)]
+  ELSE [o EXCEPT !.terms = Reverse(@), !.parents = Reverse(RevInner(@, "parents")),
+                 !.gene = Reverse(RevInner(@, "terms")), !.omim = Reverse(RevInner(@, "terms")),
+                 !.orpha = Reverse(RevInner(@, "terms"))]
 
 (* semantic projection of what the version-v file carries *)
 RecFun(rs) == [x \in {rs[i].id : i \in 1..Len(rs)} |->
